@@ -27,7 +27,7 @@ func vfChunks(name string, size int) [][]byte {
 // this harness (writer-side failure and cancellation do), so a counterexample
 // replays natively against a real temporary directory.
 //
-// vf:harness property=C13 cases=prior:-1..6;size:0..4;fail:-1..2;kind:0..1 cases.thorough=prior:-1..10;size:0..8;fail:-1..3;kind:0..1
+// vf:harness property=C13 cases=prior:-1..6;size:0..4;fail:-1..2;kind:0..1 cases.thorough=prior:-1..10;size:0..8;fail:-1..3;kind:0..1 diff=on
 // vf:replace (*os.File).Write vfFileWrite
 // vf:replace (*os.File).Sync vfFileSync
 // vf:replace (*os.File).Truncate vfFileTruncate
